@@ -5,6 +5,7 @@
 package xfer
 
 import (
+	"syscall"
 	"context"
 	"crypto/sha256"
 	"encoding/hex"
@@ -35,6 +36,7 @@ type FileSpec struct {
 	Rel  string `json:"rel"`
 	Size int64  `json:"size"` // -1: directory
 	Link string `json:"link,omitempty"` // when set: a symbolic link with this target (relative to the link's directory), Size ignored
+	Fifo bool   `json:"fifo,omitempty"` // a named pipe (an entry that is neither file, directory nor link: not part of the hosted tree)
 	Zero [][2]int64 `json:"zero,omitempty"` // byte ranges [from, to) that hold zeros (holes of a disk image, padding)
 }
 
@@ -57,6 +59,12 @@ func MakeTree(root string, specs []FileSpec, seed int64) error {
 		}
 		if s.Link != "" {
 			if err := os.Symlink(s.Link, p); err != nil {
+				return err
+			}
+			continue
+		}
+		if s.Fifo {
+			if err := syscall.Mkfifo(p, 0644); err != nil {
 				return err
 			}
 			continue
@@ -104,6 +112,15 @@ func Digest(root string) (map[string]string, error) {
 			}
 			out[rel] = "dir"
 			return nil
+		}
+		// entries that are not part of a hosted tree: pipes, sockets, devices, links that lead nowhere or to a directory
+		if d.Type()&(fs.ModeNamedPipe|fs.ModeSocket|fs.ModeDevice|fs.ModeCharDevice) != 0 {
+			return nil
+		}
+		if d.Type()&fs.ModeSymlink != 0 {
+			if ti, terr := os.Stat(p); terr != nil || ti.IsDir() {
+				return nil
+			}
 		}
 		f, err := os.Open(p)
 		if err != nil {
@@ -157,6 +174,7 @@ type Config struct {
 	DataLag    time.Duration `json:"dataLag,omitempty"`    // vlag: quiet period on the control stream before data arrives
 	CtlBackLag time.Duration `json:"ctlBackLag,omitempty"` // vquic / vlag: the receiver's control records arrive this much later
 	DataWriteDelay   time.Duration `json:"dataWriteDelay,omitempty"`   // vnet: every data-stream write of the sender takes this long
+	Manifest         *manifest.Manifest `json:"-"` // when set: this manifest value is sent instead of a fresh scan (a host serves every receiver from the one manifest it scanned)
 	ResumeStatsDelay time.Duration `json:"resumeStatsDelay,omitempty"` // the sender's ResumeStatsFn callback (a status line, a log write) takes this long
 	SmallBelow int64         `json:"smallBelow,omitempty"` // scheduler: files below this many bytes count as small (0: the default of 4 MiB)
 	Watchdog   time.Duration `json:"-"`
@@ -344,6 +362,9 @@ func Run(cfg Config, srcRoot, outDir string) (Outcome, error) {
 	m, sendRoot, err := Scan(srcRoot, cfg.ScanPaths)
 	if err != nil {
 		return out, fmt.Errorf("scan: %w", err)
+	}
+	if cfg.Manifest != nil {
+		m = *cfg.Manifest
 	}
 	want, err := ExpectedDigest(srcRoot, m, cfg)
 	if err != nil {
